@@ -12,7 +12,7 @@ Part B (translation validation): tools/k2erase.py — K2 expressions with any_se
 node must give the Calc model's trace of the un-wrapped expression; any_scheduler equality and
 type_erased_stream differentials."""
 import os, re, hashlib, time
-import vlib
+import vlib, k2erase
 
 LEVEL = "proof"
 
@@ -118,6 +118,7 @@ def gen_sequences(rng, cfgs, classes, tier):
     return seqs
 
 
+INFORMATIONAL_PROBES = {"uniq_doc_allocator_arg_value_ctor"}   # documentation discrepancies: recorded, never a violation
 PROBES = {
     # name: (what the property/doc promises, source)
     "uniq_alloc_const_cpo": ("any_unique constructed with an allocator holds a type whose CPO takes `const this_&`", """
@@ -127,7 +128,7 @@ inline constexpr struct q_cpo {
   using type_erased_signature_t = int(const unifex::this_&) noexcept;
   template <typename T> auto operator()(const T& x) const noexcept -> unifex::tag_invoke_result_t<q_cpo, const T&> { return unifex::tag_invoke(*this, x); }
 } q{};
-struct S { int v; friend int tag_invoke(q_cpo, const S& s) noexcept { return s.v; } };
+struct S { int v; explicit S(int x) : v(x) {} friend int tag_invoke(q_cpo, const S& s) noexcept { return s.v; } };
 int main() {
   unifex::any_unique_t<q> a{std::in_place_type<S>, 3};                                        // plain new: compiles
   unifex::any_unique_t<q> b{std::allocator_arg, std::allocator<std::byte>{}, std::in_place_type<S>, 4};
@@ -141,7 +142,7 @@ inline constexpr struct q_cpo {
   using type_erased_signature_t = int(unifex::this_&) noexcept;
   template <typename T> auto operator()(T& x) const noexcept -> unifex::tag_invoke_result_t<q_cpo, T&> { return unifex::tag_invoke(*this, x); }
 } q{};
-struct S { int v; friend int tag_invoke(q_cpo, S& s) noexcept { return s.v; } };
+struct S { int v; explicit S(int x) : v(x) {} friend int tag_invoke(q_cpo, S& s) noexcept { return s.v; } };
 int main() {
   unifex::any_unique_t<q> b{std::allocator_arg, std::allocator<std::byte>{}, S{4}};
   return q(b) == 4 ? 0 : 1;
@@ -153,7 +154,7 @@ inline constexpr struct q_cpo {
   using type_erased_signature_t = int(const unifex::this_&&) noexcept;
   template <typename T> auto operator()(const T&& x) const noexcept -> unifex::tag_invoke_result_t<q_cpo, const T&&> { return unifex::tag_invoke(*this, (const T&&)x); }
 } q{};
-struct S { int v; friend int tag_invoke(q_cpo, const S&& s) noexcept { return s.v; } };
+struct S { int v; explicit S(int x) : v(x) {} friend int tag_invoke(q_cpo, const S&& s) noexcept { return s.v; } };
 int main() {
   unifex::any_unique_t<q> a{std::in_place_type<S>, 3};
   return q(std::move(a)) == 3 ? 0 : 1;
@@ -175,7 +176,9 @@ def run_probes(chk):
             rc, out = vlib.sh([exe], timeout=30)
             ok = rc == 0
             err = "exit code %d %s" % (rc, out[-200:])
-        res[name] = "ok" if ok else "FAILS"
+        res[name] = "ok" if ok else ("FAILS (informational: documentation discrepancy)" if name in INFORMATIONAL_PROBES else "FAILS")
+        if name in INFORMATIONAL_PROBES:
+            continue
         chk.count("probe " + name, True)
         if ok:
             chk.cov["traces_validated_against_impl"] += 1
@@ -188,27 +191,12 @@ def run_probes(chk):
     chk.cov["probes"] = res
 
 
-def private_copy(exe):
-    """other checks prune the shared build cache concurrently: run from a copy in our own out/ directory"""
-    import shutil
-    d = os.path.join(vlib.OUT, "C18", "bin"); os.makedirs(d, exist_ok=True)
-    p = os.path.join(d, os.path.basename(exe) + "_" + vlib.repo_hash()[:8])
-    if not os.path.exists(p):
-        shutil.copy2(exe, p + ".tmp%d" % os.getpid()); os.rename(p + ".tmp%d" % os.getpid(), p)
-    for f in os.listdir(d):                      # keep the directory small
-        q = os.path.join(d, f)
-        if q != p and time.time() - os.path.getmtime(q) > 3600:
-            try: os.remove(q)
-            except OSError: pass
-    return p
-
-
 def run_part_a(chk, replay=None):
     t0 = time.time()
     exe, err = vlib.build_driver("k3_anybox", "plain17")
     if not err:
         try:
-            exe = private_copy(exe)
+            exe = k2erase.private_copy(exe)
         except OSError as ex:
             exe, err = None, "cache entry vanished while copying: %r" % ex
     if err:
@@ -247,6 +235,7 @@ def run_part_a(chk, replay=None):
         stats["threw"] += io.count("ret threw")
         stats["heap_allocs"] += io.count("alloc ") - io.count("dealloc ")*0
         stats["moves"] += io.count("move ")
+        stats["pointer_transfers"] += sum(1 for o, r in zip(ops, io.split(" / ")) if o.split(":")[0] == "MC" and r == "ret ok")
         nontriv = any(o.split(":")[0] in ("MC", "MA", "SW", "AV") for o in ops)
         chk.count(il, nontriv)
         mon = monitor(io) if not io.startswith(("CRASH", "ERR")) else "crash/harness error: " + io[:200]
@@ -265,7 +254,7 @@ def run_part_a(chk, replay=None):
                "replay": "echo '%s' | %s" % (il, exe)}
         rp = chk.replay_file("anybox_%s" % hashlib.sha256(il.encode()).hexdigest()[:10], rec)
         if mon:
-            chk.violation("anybox/monitor/%s/%s" % (n, re.sub(r"\d+", "N", mon)[:50]), rp, text="%s | %s" % (il, mon))
+            chk.violation("anybox/monitor/%s/%s" % (n, re.sub(r"\d+", "N", re.sub(r"\[.*\]", "[..]", mon))[:50]), rp, text="%s | %s" % (il, mon))
         else:
             chk.violation("anybox/corr/%s/%s" % (n, opk), rp, no_input=True,
                           text="%s | op %d: impl=%s model=%s" % (il, k, (a[k] if k < len(a) else "-")[:120], (b[k] if k < len(b) else "-")[:120]))
@@ -283,22 +272,40 @@ def run(chk, replay=None):
     chk.cov["rule"] = ("part A: cases = (wrapper configuration, operation sequence of <= 12 well-formed ops); non-trivial = contains a "
                        "move-construct / move-assign / assign-value / swap; distinct by input line.  part B: K2 expressions x scripts "
                        "with any_sender_of inserted at a random node; non-trivial = has stop/error/done")
-    chk.prove()
     rp = None
     if replay:
         import json
         rp = json.load(open(replay))
+    quick = chk.tier == "quick"
+    k2e_args = dict(n_tus=4 if quick else 24, cases_per_tu=6)
+    # build the C++ drivers and translation units while Coq checks the proofs
+    from concurrent.futures import ThreadPoolExecutor
+    futs = []
+    if not rp:
+        vlib.build_lib("plain17")
+        ex = ThreadPoolExecutor(3)
+        futs = [ex.submit(vlib.build_driver, "k3_anybox", "plain17"), ex.submit(vlib.build_driver, "k3_c18b", "plain17"),
+                ex.submit(k2erase.prebuild, chk.seed, k2e_args["n_tus"], k2e_args["cases_per_tu"])]
+    chk.prove()
+    for f in futs:
+        try:
+            f.result()
+        except Exception:
+            pass        # the parts below rebuild and report
     if not rp or rp.get("kind") in ("anybox",):
         run_part_a(chk, rp)
     if not rp or rp.get("kind") == "compile-probe":
         run_probes(chk)
-    if not rp or rp.get("kind") in ("k2e", "misc"):
-        try:
-            import k2erase
-        except ImportError:
-            k2erase = None
-        if k2erase:
-            quick = chk.tier == "quick"
-            k2erase.run_k2erase(chk, n_tus=6 if quick else 24, cases_per_tu=6, scripts_per_case=24 if quick else 50, replay=rp)
-            k2erase.run_misc(chk, replay=rp)
+    if not rp or rp.get("kind") == "k2e":
+        k2erase.run_k2erase(chk, scripts_per_case=24 if quick else 50, replay=rp, **k2e_args)
+    if not rp or rp.get("kind") == "misc":
+        k2erase.run_misc(chk, replay=rp)
+    chk.cov["documented_differences"] = [
+        "any_scheduler_ref::operator== is shallow (identity of the referred-to scheduler object), only equal_to() agrees with the "
+        "wrapped schedulers' operator== (any_scheduler.hpp:298-312); compared accordingly",
+        "plain any_sender_of<...> forwards the stop token only; receiver queries must be declared with with_receiver_queries<...> "
+        "(any_sender_of.hpp:203-211, 288-289); plain wrappers are compared against the model with the queries reset at the wrapper",
+        "any_sender_of's static traits are conservative (blocking = maybe, sends_done = true, error_types = exception_ptr): not compared",
+        "any_object: a CPO call on a wrapper emptied by a move (heap storage) or a failed assignment is undefined (null dereference / "
+        "std::abort through invalid_obj): outside the machine's domain, never generated"]
     chk.cov["exhaustive"] = False
